@@ -297,12 +297,19 @@ Theorem C08_sum_mean_count g h m ch s0 rest P : all_series (OS s0 :: rest) ->
      agg_cell ACount cs = Some (Z.of_nat (length (present cs))) /\
      (present cs = [] <-> forall c, In c cs -> c = None) /\
      (present cs = [] -> agg_cell ASum cs = None /\ agg_cell AMean cs = None) /\
-     (present cs <> [] -> agg_cell ASum cs = Some (zsum (present cs)) /\
-                          agg_cell AMean cs = Some (zsum (present cs) / Z.of_nat (length (present cs))))).
+     (present cs <> [] -> has_pinf cs = false -> has_ninf cs = false ->
+        agg_cell ASum cs = Some (zsum (present cs)) /\
+        agg_cell AMean cs = Some (zsum (present cs) / Z.of_nat (length (present cs)))) /\
+     (* +-inf operands are data: counted (present), and they decide sum and mean by the IEEE rules *)
+     (has_pinf cs = true \/ has_ninf cs = true -> present cs <> []) /\
+     (present cs <> [] -> has_pinf cs = true -> has_ninf cs = false -> agg_cell ASum cs = Some INFZ /\ agg_cell AMean cs = Some INFZ) /\
+     (present cs <> [] -> has_pinf cs = false -> has_ninf cs = true -> agg_cell ASum cs = Some (- INFZ) /\ agg_cell AMean cs = Some (- INFZ)) /\
+     (has_pinf cs = true -> has_ninf cs = true -> agg_cell ASum cs = None /\ agg_cell AMean cs = None)).
 Proof.
   intros Hall HP. split; [exact (df_agg_series g h m ch s0 rest P Hall HP)|]. split.
   - intros ->. exact (join_index_spec HO _ P HP).
-  - intros cs. destruct (agg_cell_spec cs) as [A [B C]]. split; [exact A|]. split; [apply present_nil|]. split; assumption.
+  - intros cs. destruct (agg_cell_spec cs) as [A [B [C [D [E F]]]]]. split; [exact A|]. split; [apply present_nil|].
+    split; [exact B|]. split; [exact C|]. split; [apply present_counts_inf|]. split; [exact D|]. split; [exact E | exact F].
 Qed.
 Print Assumptions C08_sum_mean_count.
 
@@ -403,6 +410,19 @@ Proof.
   - cbn [fold_left]. apply IH. assumption.
 Qed.
 Print Assumptions C08_min_max_frames.
+
+(* min_ / max_ of a one-column DataFrame and a Series, either order (as_series squeezes the frame): a Series on the joint index *)
+Theorem C08_min_max_one_column o h m ch c0 r s : (o = OpMin \/ o = OpMax) ->
+  (forall P, join_index h [index_of r; index_of s] = Some P ->
+     minmax (cell_op o) h m ch [OF [c0] r; OS s] =
+       Some (OS (map (fun t => (t, cell_op o (row_get [c0] (row_val m [c0] r t) c0) (val_at m s t))) P))) /\
+  (forall P, join_index h [index_of s; index_of r] = Some P ->
+     minmax (cell_op o) h m ch [OS s; OF [c0] r] =
+       Some (OS (map (fun t => (t, cell_op o (val_at m s t) (row_get [c0] (row_val m [c0] r t) c0))) P))).
+Proof.
+  intros _. split; intros P HP; [apply minmax_one_column | apply minmax_one_column_swapped]; exact HP.
+Qed.
+Print Assumptions C08_min_max_one_column.
 
 (* non-vacuity: partially overlapping series, a zero divisor, NaNs; frames with different column sets *)
 Example C08_example :
